@@ -32,7 +32,7 @@ THEOREMS = ["JanetModel.Props.C12." + t for t in (
     "backref_flag_unobservable", "backref_flag_unobservable_op", "compiled_backref_flag_certified", "compile_flag_sound", "compile_correct_real_flag", "op_run_keeps_window", "op_run_keeps_depth",
     "lenprefix_leak_breaks_op_eq_den", "decode_sizes_agree",
     "op_run_fuel_mono", "op_run_fuel_unique", "op_step_mono", "den_run_fuel_mono", "op_eq_den_any_fuel",
-    "entry_points_fuel_mono", "entry_points_fuel_mono_den", "op_run_returns", "op_returns_of_den")]
+    "entry_points_fuel_mono", "entry_points_fuel_mono_den", "op_run_returns", "op_returns_of_den", "tail_choice_diverges")]
 # facts about the CURRENT peg.c (Gen/Peg.lean) that the model relies on; they fail to check on a tree with the defects
 TIE = ["JanetModel.Peg.Tie." + t for t in (
     "lenprefix_mode_restored", "no_mode_leaks", "no_window_leaks", "number_capture_not_raw", "recursion_guard", "depth_exits_balanced")]
